@@ -657,7 +657,8 @@ def _obligations_for(prop, tier):
         if prop == "C06":
             # the run follows a complete run on an edited model (a team added afterwards, other skills, other absence steps)
             ed = [ob for ob in p_contention(thorough, H=12 if thorough else 8, timeout=900 if thorough else 150)
-                  if "/rule=0/" in ob["name"] and "solo=None" in ob["name"] and "fix=None" in ob["name"] and ("/indep/" in ob["name"] or "/fork/" in ob["name"] or thorough)]
+                  if "/rule=0/" in ob["name"] and "solo=None" in ob["name"] and "fix=None" in ob["name"] and ("/indep/" in ob["name"] or "/fork/" in ob["name"] or thorough)
+                  and ("teams=two" in ob["name"] or thorough)]  # (quick: the three-worker one-team members exceed the per-obligation deadline with a first run in front)
             obs += with_history(ed, "edited-model", 2)
         if prop in ("C06", "C02"):
             obs += p_ff_join(thorough, H=12 if thorough else 10, timeout=900 if thorough else 150)
